@@ -164,6 +164,7 @@ func runC07(c *Ctx) {
 	r.Doc("E7", "v1 Simple: handlers joined (wg.Wait) after cancel and before any signal; wg.Add before go; wg.Done deferred first", 3)
 	r.Doc("E8", "(= B9, B11) actual changes only by +1 per send, -1 per received release, delete at zero", 8)
 	r.Doc("E10", "the scheduler's idle pause is a small constant (closed inputs are observed, and termination signalled, promptly)", 2)
+	r.Doc("E13", "outside selects the scheduler waits only for releases, the inner discipline, a tick of a ticker that only the entry's deferred clean-up stops, or a short constant time.After", 3)
 	r.Doc("E11", "(= X1) every configured / added input is registered in the table under its own key, unconditionally", 4)
 	r.Doc("E12", "(= X9) v1 Simple: the supervising goroutine waits only for stop, cancel, the graceful request and the inner discipline's end", 7)
 	r.Doc("E9", "the error channel never delays termination: made with capacity >= 1 and written at most once per goroutine (reading Err() is optional)", 3)
@@ -184,6 +185,7 @@ func runC07(c *Ctx) {
 		c07waitZero(c, sr)
 		c07errChannel(c, p)
 		checkConstantIdleSleep(c, sr, "E10")
+		checkSchedulerWaits(c, sr, "E13")
 		// E8: `actual` is only changed by +1 on a successful send, -1 per received release and (v1)
 		// deletion at zero - otherwise termination is signalled with items unreleased
 		if pr, err := resolvePrio(p); err == nil {
